@@ -52,8 +52,10 @@ Eager == IF Kind = "czerny" THEN {"w2p"} ELSE {}
 
 \* public read-outs and the settings each one needs
 \* calibrate(spectrum) (spectrometers only) reads the pixel arrays and keeps nothing
-Getters == {"spectral", "classes", "kwargs", "create_pipelines"} \cup (IF Kind = "polychromator" THEN {} ELSE {"calibrate"})
-Fills(g) == IF g = "create_pipelines" THEN {"classes", "kwargs"} ELSE IF g = "calibrate" THEN {} ELSE {g}
+\* "all": the caller reads every public read-out of the instrument (ranges, bins, pixel arrays, pixel-centre wavelengths,
+\* pipelines, parameters, a calibration) - whatever the class keeps lazily, named here or not, is filled by it
+Getters == {"spectral", "classes", "kwargs", "create_pipelines", "all"} \cup (IF Kind = "polychromator" THEN {} ELSE {"calibrate"})
+Fills(g) == IF g = "create_pipelines" THEN {"classes", "kwargs"} ELSE IF g = "calibrate" THEN {} ELSE IF g = "all" THEN Caches ELSE {g}
 
 Init == /\ par \in [Params -> {1}] \cup [Params -> {2}]
         /\ cache = [c \in Caches |-> IF c \in Eager THEN <<Proj(c, par)>> ELSE <<>>]
@@ -90,7 +92,7 @@ SetInvalid(p, v) ==
 \* reading a setting: computed from the current parameters if it was cleared
 Get(g) ==
     /\ cache' = [c \in Caches |-> IF c \in Fills(g) /\ cache[c] = <<>> THEN <<Proj(c, par)>> ELSE cache[c]]
-    /\ outcome' = "ok" /\ used' = (IF Fills(g) = {} THEN used \cup {g} ELSE used)
+    /\ outcome' = "ok" /\ used' = (IF g \in {"calibrate", "all"} THEN used \cup {g} ELSE used)
     /\ UNCHANGED par
     /\ Log([op |-> "get", g |-> g])
 
